@@ -484,6 +484,29 @@ impl<'a> World<'a> {
                 drop(s);
             }
             Op::Reopen { alt } => self.op_reopen(*alt)?,
+            Op::SettleJournals => {
+                if self.sw_tx_open() {
+                    return Ok(());
+                }
+                for round in 0..3 {
+                    for n in self.names() {
+                        self.pre_write(&n)?;
+                        let h = self.ks[&n].clone();
+                        h.ks.rotate_memtable().map_err(es("rotate_memtable"))?;
+                        self.drain()?;
+                    }
+                    let _ = round;
+                }
+                let jc = self.dbi().journal_count();
+                let on_disk = std::fs::read_dir(&self.dir)
+                    .map(|rd| rd.flatten().filter(|e| e.file_name().to_string_lossy().ends_with(".jnl")).count())
+                    .unwrap_or(0);
+                self.st.inc("settle_journals");
+                ck!(
+                    jc == 1 && on_disk == 1,
+                    "after every keyspace was rotated and flushed, journal_count() = {jc} and {on_disk} journal files are on disk (expected 1)"
+                );
+            }
         }
         Ok(())
     }
